@@ -262,7 +262,7 @@ theorem err_unchanged (T : Table) (s s' : MState) (h : step T s = some s') (he :
   apply raw_unchanged T s s' h
   intro c0 tl _
   rw [he]
-  simp [trans]
+  cases (lexTok (c0 :: tl)).kind <;> simp [trans, transCore]
 
 /-- With an empty table the whole run is the identity on the text. -/
 theorem subst_nil (line : List Char) : substText [] line = line := by
